@@ -502,7 +502,15 @@ def c07(cases, res):
     lists = chooses = rejected = 0
     for case in cases:
         sys_ = case_dict(case)
+        # the phonetic layout in effect (setup line LAYOUT, `layout k` ops): Hsu (1) and ET26 (5) add the words of a
+        # syllable's alternative readings to its one-syllable list ("defined to include that reading's characters")
+        layout = 0
+        for l in case["setup"]:
+            if l.startswith("LAYOUT "):
+                layout = int(l.split()[1])
         for i, prev, s in steps_with_prev(case):
+            if s.op and s.op[0] == "layout":
+                layout = int(s.op[1])
             o = opts_of(s)
             per = o[7]
             if state_of(s) == "Selecting" and s.obs and s.obs.get("cands", "-") not in ("-", "PANIC"):
@@ -526,6 +534,18 @@ def c07(cases, res):
                         continue
                     key = ".".join(x[1:] for x in syms[b:e])
                     exp = expected_candidates(sys_, user_dict_of(s), key)
+                    if layout in (1, 5) and e - b == 1 and cands[:len(exp)] == exp:
+                        # the rest: words of one-syllable keys (the alternative readings; which readings is the
+                        # layout's table, compared exactly by the model correspondence), each once
+                        usr_ = user_dict_of(s)
+                        singles = set()
+                        for d in (sys_, usr_):
+                            for kk, ws in d.items():
+                                if "." not in kk:
+                                    singles.update(ws)
+                        rest = cands[len(exp):]
+                        if all(x in singles for x in rest) and len(set(cands)) == len(cands):
+                            exp = cands
                     if exp != cands:
                         out.append(fail("candidate-list-incomplete", case, i, "range %d-%d expected %s got %s" % (b, e, exp, cands)))
             # choosing
